@@ -264,7 +264,9 @@ fn first_subject_frame(bt: &str) -> String {
         if sym.contains("okane_verif::") {
             continue;
         }
-        if sym.contains("okane_core::") || sym.contains("okane::") || sym.contains("okane_golden::") {
+        // the symbol itself (not a generic argument of a std function) must live in the subject crates.
+        let head = sym.trim_start_matches('<').trim_start_matches('&').trim_start_matches("mut ");
+        if head.starts_with("okane_core::") || head.starts_with("okane::") || head.starts_with("okane_golden::") {
             return clean_symbol(sym);
         }
     }
@@ -300,6 +302,14 @@ pub fn take_panic() -> Option<CapturedPanic> {
     LAST_PANIC.with(|p| p.borrow_mut().take())
 }
 
+/// rust_decimal's own panics for results outside its 96-bit range (not division by zero).
+pub fn is_decimal_range_overflow(msg: &str) -> bool {
+    matches!(
+        msg,
+        "Multiplication overflowed" | "Addition overflowed" | "Subtraction overflowed" | "Division overflowed"
+    )
+}
+
 /// Run `f` on the real code; a panic becomes a violation of the running property.
 /// Returns None if it panicked.
 pub fn guarded<T, F: FnOnce() -> T>(rec: &mut Recorder, f: F) -> Option<T> {
@@ -312,6 +322,13 @@ pub fn guarded<T, F: FnOnce() -> T>(rec: &mut Recorder, f: F) -> Option<T> {
                 location: "?".into(),
                 frame: "?".into(),
             });
+            if is_decimal_range_overflow(&p.message) {
+                // an intermediate result left the representable decimal range: outside the
+                // hypothesis of every property ("as long as numbers stay within the range").
+                rec.count("excused:decimal-range-overflow");
+                rec.skip();
+                return None;
+            }
             let class = format!("{}|{}", p.frame, normalise_numbers(&p.message));
             let what = format!(
                 "panic in {} during {}: {}",
